@@ -120,3 +120,88 @@ var _ I__str__ = Bool(false)
 var _ I__repr__ = Bool(false)
 var _ I__eq__ = Bool(false)
 var _ I__ne__ = Bool(false)
+
+// Arithmetic: a bool behaves as the int 0 or 1
+
+func (a Bool) int() Int {
+	if a {
+		return Int(1)
+	}
+	return Int(0)
+}
+
+func (a Bool) M__neg__() (Object, error)    { return a.int().M__neg__() }
+func (a Bool) M__pos__() (Object, error)    { return a.int().M__pos__() }
+func (a Bool) M__abs__() (Object, error)    { return a.int().M__abs__() }
+func (a Bool) M__invert__() (Object, error) { return a.int().M__invert__() }
+
+func (a Bool) M__add__(other Object) (Object, error)       { return a.int().M__add__(other) }
+func (a Bool) M__radd__(other Object) (Object, error)      { return a.int().M__radd__(other) }
+func (a Bool) M__sub__(other Object) (Object, error)       { return a.int().M__sub__(other) }
+func (a Bool) M__rsub__(other Object) (Object, error)      { return a.int().M__rsub__(other) }
+func (a Bool) M__mul__(other Object) (Object, error)       { return a.int().M__mul__(other) }
+func (a Bool) M__rmul__(other Object) (Object, error)      { return a.int().M__rmul__(other) }
+func (a Bool) M__truediv__(other Object) (Object, error)   { return a.int().M__truediv__(other) }
+func (a Bool) M__rtruediv__(other Object) (Object, error)  { return a.int().M__rtruediv__(other) }
+func (a Bool) M__floordiv__(other Object) (Object, error)  { return a.int().M__floordiv__(other) }
+func (a Bool) M__rfloordiv__(other Object) (Object, error) { return a.int().M__rfloordiv__(other) }
+func (a Bool) M__mod__(other Object) (Object, error)       { return a.int().M__mod__(other) }
+func (a Bool) M__rmod__(other Object) (Object, error)      { return a.int().M__rmod__(other) }
+func (a Bool) M__lshift__(other Object) (Object, error)    { return a.int().M__lshift__(other) }
+func (a Bool) M__rlshift__(other Object) (Object, error)   { return a.int().M__rlshift__(other) }
+func (a Bool) M__rshift__(other Object) (Object, error)    { return a.int().M__rshift__(other) }
+func (a Bool) M__rrshift__(other Object) (Object, error)   { return a.int().M__rrshift__(other) }
+
+func (a Bool) M__divmod__(other Object) (Object, Object, error) {
+	return a.int().M__divmod__(other)
+}
+
+func (a Bool) M__rdivmod__(other Object) (Object, Object, error) {
+	return a.int().M__rdivmod__(other)
+}
+
+func (a Bool) M__pow__(other, modulus Object) (Object, error) {
+	return a.int().M__pow__(other, modulus)
+}
+
+func (a Bool) M__rpow__(other Object) (Object, error) { return a.int().M__rpow__(other) }
+
+// The bitwise operators give a bool if both operands are bools
+
+func (a Bool) M__and__(other Object) (Object, error) {
+	if b, ok := other.(Bool); ok {
+		return NewBool(bool(a) && bool(b)), nil
+	}
+	return a.int().M__and__(other)
+}
+
+func (a Bool) M__rand__(other Object) (Object, error) { return a.M__and__(other) }
+
+func (a Bool) M__or__(other Object) (Object, error) {
+	if b, ok := other.(Bool); ok {
+		return NewBool(bool(a) || bool(b)), nil
+	}
+	return a.int().M__or__(other)
+}
+
+func (a Bool) M__ror__(other Object) (Object, error) { return a.M__or__(other) }
+
+func (a Bool) M__xor__(other Object) (Object, error) {
+	if b, ok := other.(Bool); ok {
+		return NewBool(a != b), nil
+	}
+	return a.int().M__xor__(other)
+}
+
+func (a Bool) M__rxor__(other Object) (Object, error) { return a.M__xor__(other) }
+
+func (a Bool) M__lt__(other Object) (Object, error) { return a.int().M__lt__(other) }
+func (a Bool) M__le__(other Object) (Object, error) { return a.int().M__le__(other) }
+func (a Bool) M__gt__(other Object) (Object, error) { return a.int().M__gt__(other) }
+func (a Bool) M__ge__(other Object) (Object, error) { return a.int().M__ge__(other) }
+
+func (a Bool) M__int__() (Object, error)     { return a.int(), nil }
+func (a Bool) M__float__() (Object, error)   { return a.int().M__float__() }
+func (a Bool) M__complex__() (Object, error) { return a.int().M__complex__() }
+
+func (a Bool) M__round__(digits Object) (Object, error) { return a.int().M__round__(digits) }
